@@ -210,6 +210,7 @@ def run_tlc(module, cfg_body, tag, workers=8, timeout=1800, env=None, collect_pr
     r.wall = time.time() - t
     shutil.rmtree(meta, ignore_errors=True)
     errors = []
+    pending = None
     with open(out_file, errors="replace") as f:
         for line in f:
             if line.startswith('"{') or line.startswith('"['):
@@ -221,8 +222,13 @@ def run_tlc(module, cfg_body, tag, workers=8, timeout=1800, env=None, collect_pr
             m = re.match(r"^The depth of the complete state graph search is (\d+)", line)
             if m:
                 r.depth = int(m.group(1))
-            if line.startswith("<<") and collect_prints:
-                r.prints.append(line)
+            if collect_prints and (line.startswith("<<") or pending is not None):
+                # TLC pretty-prints long tuples over several lines: reassemble until << >> balance
+                pending = line if pending is None else pending + " " + line.strip()
+                if pending.count("<<") <= pending.count(">>"):
+                    r.prints.append(re.sub(r"<<\s+", "<<", re.sub(r"\s+>>", ">>", re.sub(r"\s+", " ", pending))))
+                    pending = None
+                continue
             if line.startswith("Error:") or "is violated" in line or "Invariant " in line and "violated" in line:
                 errors.append(line)
             if "Model checking completed. No error has been found." in line:
@@ -252,10 +258,16 @@ def tlc_json_lines(path):
 def parse_tla_tuple_prints(prints, head):
     """lines like <<"REJECT", 12, <<"a", "b">>>>  ->  list of (int, [str...])"""
     out = []
+    consumed = None
     for l in prints:
         m = re.match(r'^<<"%s", (\d+), <<(.*)>>>>$' % head, l)
         if m:
             out.append((int(m.group(1)), re.findall(r'"([^"]*)"', m.group(2))))
+        m = re.match(r'^<<"CONSUMED", (\d+), "rejected", (\d+)>>$', l)
+        if m:
+            consumed = int(m.group(2))
+    if head == "REJECT" and consumed is not None and consumed != len(out):
+        raise ToolError("TLC rejected %d events but %d verdict lines were parsed" % (consumed, len(out)))
     return out
 
 
